@@ -61,8 +61,8 @@ def tla_value(v):
     if isinstance(v, int):
         return str(v)
     if isinstance(v, str):
-        if v.startswith("@"):      # raw TLA expression
-            return v[1:]
+        if v.startswith("@"):      # raw TLA expression (goes through a wrapper module)
+            return "EXPR:" + v[1:]
         return '"%s"' % v
     if isinstance(v, (set, frozenset)):
         return "{" + ", ".join(tla_value(x) for x in sorted(v, key=str)) + "}"
@@ -82,9 +82,24 @@ def run_tlc(module, cfg, name, workers=8, timeout=600, simulate=None, env=None,
     shutil.rmtree(rundir, ignore_errors=True)
     os.makedirs(rundir)
     cfgpath = os.path.join(rundir, name + ".cfg")
+    # Constants given as TLA+ expressions ("X = @expr" lines produced by cfg_text for values that
+    # a cfg file cannot hold) go through a generated wrapper module: X <- const_X.
+    root = os.path.join(SPEC, module)
+    exprs = re.findall(r"^  (\w+) = EXPR:(.*)$", cfg, re.M)
+    if exprs:
+        base = module[:-4]
+        wname = "MC_" + re.sub(r"\W", "_", name)
+        with open(os.path.join(rundir, wname + ".tla"), "w") as f:
+            f.write("---- MODULE %s ----\nEXTENDS %s\n" % (wname, base))
+            for k, v in exprs:
+                f.write("const_%s == %s\n" % (k, v))
+            f.write("====\n")
+        for k, v in exprs:
+            cfg = cfg.replace("  %s = EXPR:%s" % (k, v), "  %s <- const_%s" % (k, k))
+        root = os.path.join(rundir, wname + ".tla")
     with open(cfgpath, "w") as f:
         f.write(cfg)
-    jopts = "-Xss1g"
+    jopts = "-Xss1g -DTLA-Library=" + SPEC
     if dfs_queue:
         jopts += " -Dtlc2.tool.queue.IStateQueue=StateDeque"
     e = dict(os.environ)
@@ -102,7 +117,7 @@ def run_tlc(module, cfg, name, workers=8, timeout=600, simulate=None, env=None,
     if simulate:
         cmd += ["-simulate", simulate]
     cmd += list(extra)
-    cmd.append(os.path.join(SPEC, module))
+    cmd.append(root)
     t0 = time.time()
     p = subprocess.run(cmd, stdout=subprocess.PIPE, stderr=subprocess.STDOUT, env=e, cwd=SPEC,
                        text=True, errors="replace")
